@@ -31,6 +31,23 @@ def _run_harness(ctx, scripts=None, q=5, race=False, extra=None):
     return rows, (int(leak[0].split("\t")[1]) if leak else 0)
 
 
+def _membership(ctx, rows, workers=12):
+    """trace membership of every observed conversation, several driver processes in parallel"""
+    if len(rows) < 64:
+        return ctx.driver("c11", rows)
+    from concurrent.futures import ThreadPoolExecutor
+    n = (len(rows) + workers - 1) // workers
+    chunks = [rows[i:i + n] for i in range(0, len(rows), n)]
+    with ThreadPoolExecutor(max_workers=workers) as ex:
+        outs = list(ex.map(lambda c: ctx.driver("c11", c, timeout=900), chunks))
+    res = []
+    for c, o in zip(chunks, outs):
+        if len(o) != len(c):
+            raise RuntimeError("lean driver returned %d lines for %d inputs" % (len(o), len(c)))
+        res += o
+    return res
+
+
 def _script_of(row):
     return row.split("\t")[0]
 
@@ -61,8 +78,8 @@ def _classes(row):
         cls.add("init-not-accepted")
     if re.search(r"m:(stop|complete):", script):
         cls.add("stop")
-    if re.search(r":(num|badq|pq|n):\d+~? ", script + " ") and "connection_ack" in frames:
-        cls.add("early-exit-or-bare")
+    if re.search(r"m:(start|subscribe):[^:]+:(num|badq|pq|n|obj|rej):", script) and "connection_ack" in frames:
+        cls.add("start-refused-before-execution")
     if re.search(r" (a|z)~?( |$)", script):
         cls.add("client-gone")
     if " sc" in script:
@@ -138,10 +155,22 @@ def run(ctx):
         return
 
     # ---- model side: trace membership
-    verdicts = ctx.driver("c11", rows)
+    verdicts = _membership(ctx, rows)
     bad = [(r, v) for r, v in zip(rows, verdicts) if not v.startswith("member")]
     first_pass_nonmembers = len(bad)
     retried = 0
+    if len(bad) > 120:
+        # hundreds of non-members are not a settle-heuristic hiccup: confirm on a sample only,
+        # a few per verdict class, shortest scripts first
+        per = Counter()
+        sample = []
+        for r, v in sorted(bad, key=lambda rv: len(_script_of(rv[0]))):
+            k = _spec(v)
+            if per[k] < 12:
+                per[k] += 1
+                sample.append((r, v))
+        ctx.cov["nonmembers_sampled_for_confirmation"] = len(sample)
+        bad = sample
     # the observation depends on the harness's settle heuristic: re-run non-members with more patience,
     # a real defect stays a non-member
     for q in RETRY_Q:
@@ -154,7 +183,7 @@ def run(ctx):
             scripts.append(" ".join(toks))
         retried += len(scripts)
         rows2, _ = _run_harness(ctx, scripts, q=q, extra=["-leakcheck=false", "-par", "8"])
-        v2 = ctx.driver("c11", rows2)
+        v2 = _membership(ctx, rows2)
         bad = [(r, v) for r, v in zip(rows2, v2) if not v.startswith("member")]
 
     spec_bad_members = [(r, v) for r, v in zip(rows, verdicts) if v.startswith("member") and "spec=ok" not in v]
